@@ -10,7 +10,7 @@ struct CCopyXAlg { static constexpr bool needs_compat = false;
     template <class S, class D> std::string operator()(S const& s, D const& d) const { gil::copy_and_convert_pixels(s, d, sum_cc()); return ""; } };
 int main() {
     return hv::run([](std::string const& line) -> std::string {
-        auto a = hv::words(line);
+        auto a = op_words(line);
 #if CC_GROUP == 1
         if (!a.empty() && a[0] == "ccopy") return run_bin_line<L6>(CCopyAlg(), a);
 #else
